@@ -34,3 +34,19 @@ type Entry struct {
 	XKeys  []string
 	XVals  [][]byte
 }
+
+// TarMember is one archive member as seen by the harness.
+type TarMember struct {
+	Name     string
+	Typeflag byte
+	Linkname string
+	Size     int64
+	Mode     int64
+	Uid, Gid int
+	ModSec   int64
+	Devmajor int64
+	Devminor int64
+	PAXKeys  []string
+	PAXVals  []string
+	Payload  []byte
+}
